@@ -36,7 +36,8 @@ RULE = ("(a) configurations = processes {1,2,3(,4)} x file layouts (1-3 "
         "secondary splits x max_interval {half a slot, 1.5 slots} x 3 "
         "periods x bundle x output x {1, 2} processes on the default "
         "schedule (quick: three bundle/output/process combinations per "
-        "period), plus real-multiprocessing runs. evaluations = executions; "
+        "period; fileset output with 2 processes goes through "
+        "Collocations.search), plus real-multiprocessing runs. evaluations = executions; "
         "non-trivial = an execution with >= 1 deviation, or (b) a case with "
         ">= 1 collocation across a file boundary.")
 ASSUMPTIONS = [
@@ -71,6 +72,9 @@ SCHED = None            # current Scheduler (for write scheduling points)
 
 class Unreadable(Exception):
     pass
+
+
+SEARCHED = object()     # marker: the run went through Collocations.search
 
 
 # ------------------------------------------------------------------ data
@@ -215,6 +219,11 @@ def call(world, cfg, processes, output):
         kw["skip_file_errors"] = True
     with warnings.catch_warnings():
         warnings.simplefilter("ignore")
+        if cfg.get("via_search"):
+            # Collocations.search: the same pipeline, results only on disk
+            kw.pop("output")
+            output.search([world.A, world.B], **kw)
+            return SEARCHED
         return list(Collocator().collocate_filesets([world.A, world.B], **kw))
 
 
@@ -230,13 +239,15 @@ def observe(world, cfg, items, output, outdir):
             ds = it[0] if isinstance(it, tuple) else it
             pairs.extend(pairs_of(ds))
     else:
-        crashed = sum(1 for it in items if it is ProcessCrashed)
-        yielded = sorted(os.fspath(i) for i in items
-                         if i is not ProcessCrashed)
         written = []
         for dirpath, _, names in os.walk(outdir):
             written.extend(os.path.join(dirpath, n) for n in names)
         written.sort()
+        if items is SEARCHED:
+            items = yielded = written
+        crashed = sum(1 for it in items if it is ProcessCrashed)
+        yielded = sorted(os.fspath(i) for i in items
+                         if i is not ProcessCrashed)
         if sorted(set(yielded)) != written:
             naming.append(("yielded-names-differ-from-files-written",
                            [os.path.basename(p) for p in yielded],
@@ -658,7 +669,9 @@ def run_inputs(res, shard):
                     if True:
                         cfg = dict(layout=None, mi=mi, bundle=bundle,
                                    output=output, skip=False, start=start,
-                                   end=end)
+                                   end=end,
+                                   via_search=(output == "fileset"
+                                               and processes == 2))
                         exp = brute_force(world, mi, start, end)
                         res.case(nontrivial=bool(exp) and
                                  (len(a) > 1 or len(b) > 1))
@@ -670,7 +683,8 @@ def run_inputs(res, shard):
                                 bad[0], dict(kind="inputs", a=a, b=b, mi=mi,
                                              period=pname, bundle=bundle,
                                              output=output,
-                                             processes=processes),
+                                             processes=processes,
+                                             via_search=cfg["via_search"]),
                                 bad[1], bad[2])
     if last:
         res.sample(dict(kind="inputs", A_files=last[0], B_files=last[1],
@@ -844,7 +858,8 @@ def replay(case):
         world = World(root, dict(A=case["a"], B=case["b"]))
         start, end = PERIODS[case["period"]]
         cfg = dict(layout=None, mi=case["mi"], bundle=case["bundle"],
-                   output=case["output"], skip=False, start=start, end=end)
+                   output=case["output"], skip=False, start=start, end=end,
+                   via_search=case.get("via_search", False))
         obs = run_default(world, cfg, case["processes"])
         bad = judge(world, cfg, case["processes"], obs)
     else:
